@@ -295,7 +295,8 @@ func main() {
 		cls := valgen.Classify(p, t, v)
 		ans := emit("enc "+tv, "enc/"+sizeClass(t)+"/"+strings.Fields(exec("enc " + tv))[0])
 		emit("cls "+tv, "cls/"+cls)
-		if cls == "clean" && (strings.HasPrefix(ans, "ok") || ans == "null") {
+		// (a panic on a documented input is a failing input of the property as well: the specification has an answer)
+		if cls == "clean" && (strings.HasPrefix(ans, "ok") || ans == "null" || ans == "crash") {
 			emit("spec "+tv, "spec/"+sizeClass(t)+fmt.Sprintf("/v%d", p))
 		}
 		// decode direction: what the real encoder produced (and truncations of it), into several targets
